@@ -98,6 +98,43 @@
 //!   interface, its commit diff served as IXFR, AXFR; 12 request kinds), L/W
 //!   and, as old contents and edit operations, L/D.
 //!   `C10_ONLY_L=1` runs part L only (development aid).
+//! Part E (zone origin x tree shape): the old content reaches the zone through
+//!   every route the library offers (ZoneBuilder; a first AXFR into an empty
+//!   zone through interpreter + ZoneUpdater; write-interface additions; a
+//!   richer zone from which names were emptied by write-interface removals, by
+//!   an IXFR through the updater, or replaced by an AXFR through the updater -
+//!   the routes leave different marks on names without records), over the name
+//!   tree z > a > b, z > c > e > d in which every name holds an A RRset or
+//!   nothing (32 contents; thorough: the leaves also A{1,2} / TXT, 128): names
+//!   below an empty non-terminal, below a name emptied in an earlier version,
+//!   two levels below.  Every old content x every origin is replaced by every
+//!   content (thorough: every content <= 3 names away, the empty and the full
+//!   one) through 6 routes: AXFR and IXFR through the updater; write
+//!   interface incremental, remove_all at the apex / at both subtrees / at the
+//!   inner name e.c.z followed by re-adding.  Oracles: content after the
+//!   history and after the replacement == model; a diff with the right serials
+//!   is returned; the diff applied by the model to the old content == new
+//!   content (also for every diff reported along the history); the IXFR the
+//!   real XfrMiddlewareSvc serves from that diff is read by the reference as a
+//!   valid transfer of the new content and takes the real receiver (its zone
+//!   made by the same history) there.
+//! Part I (interleaving writer): the sender is at version 2 when the request
+//!   arrives (AXFR, AXFR one-RR-per-message, IXFR answered AXFR-style, IXFR
+//!   answered from diffs in one and in many messages, `Zone` as provider);
+//!   the response stream is consumed item by item on the current-thread
+//!   runtime and the environment event "a writer commits version 3 (and 4)
+//!   through the write interface" is inserted at every position: after the
+//!   service call returned the stream and before its first poll, after k =
+//!   1..6 [12] items, each after 0..2 [3] extra turns of the runtime (the
+//!   tasks spawned by the service advance, the consumer does not poll); one
+//!   version, two versions at one point, thorough: every pair of points.
+//!   Oracle: for the reference the emitted messages are a valid transfer
+//!   (opening SOA, content, closing SOA) of ONE version that was current at
+//!   some moment between the arrival of the request and the end of the stream
+//!   (version 2 or one committed before the stream ended), by the per-version
+//!   content models; the real receiver at version 1 ends up with it.  The
+//!   verdict does not depend on which thread got how far.
+//!   `C10_ONLY_EI=1` runs parts E and I only (development aid).
 //! Serial axis: model serials are logical (1, 2, 3 = versions of a history);
 //!   a scheme (start, step) maps them to SOA serials.  Scheme 0 is 1,2,3; seven
 //!   more cross the 2^32 wrap (FFFFFFFF->0->1, FFFFFFFF->1->3, FFFFFFFE->
@@ -161,8 +198,9 @@ const TTL: u32 = 3600;
 /// The TTL menu of the TTL axis (part L).  A record of the model carries an
 /// index into it; index 0 is the TTL of everything outside part L.
 const TTLS: [u32; 4] = [TTL, 300, 0, 0x7FFF_FFFF];
-const OWNERS: [&str; 6] = ["z.", "a.z.", "b.a.z.", "c.z.", "x.y.", "y."]; // the last two are outside the zone (fault / foreign request only)
-const OWNERS_NODOT: [&str; 6] = ["z", "a.z", "b.a.z", "c.z", "x.y", "y"];
+// 4 and 5 are outside the zone (fault / foreign request only); 6 and 7 are the deep names of part E
+const OWNERS: [&str; 8] = ["z.", "a.z.", "b.a.z.", "c.z.", "x.y.", "y.", "d.e.c.z.", "e.c.z."];
+const OWNERS_NODOT: [&str; 8] = ["z", "a.z", "b.a.z", "c.z", "x.y", "y", "d.e.c.z", "e.c.z"];
 
 // ====================================================================
 // Model
@@ -750,6 +788,8 @@ struct RealRec {
     diffs: Vec<(Obs, DiffObs, Obs)>,
     consumed: usize,
     updates: Vec<&'static str>,
+    /// the diffs of `diffs` as returned by apply()
+    raw_diffs: Vec<InMemoryZoneDiff>,
 }
 
 fn err_class(s: String) -> String {
@@ -836,6 +876,7 @@ impl Pipe {
                             return Feed::End(Outcome::Err { at: i, class: format!("diff-trait-view:{why}") });
                         }
                         rec.diffs.push((b, diff_obs(&d), observe(zone)));
+                        rec.raw_diffs.push(d);
                     }
                 }
                 Ok(None) => {}
@@ -2402,6 +2443,8 @@ async fn node_for(root: &Box<dyn WritableZoneNode>, owner: u8) -> std::io::Resul
         1 => &[b"a"],
         2 => &[b"a", b"b"],
         3 => &[b"c"],
+        6 => &[b"c", b"e", b"d"],
+        7 => &[b"c", b"e"],
         _ => unreachable!(),
     };
     let mut node = root.update_child(Label::from_slice(labels[0]).unwrap()).await?;
@@ -2999,6 +3042,21 @@ fn run_sender_case(sh: &Shared, ks: &[Kinds], rq: &SReq, verbose: bool) {
         lcount("S:limit-too-small-for-a-record:error-response");
         return;
     }
+    // Room for fewer than 512 octets per message (produced here by reserving almost the whole
+    // message) is below the size every DNS implementation must handle (RFC 1035 2.3.4); it is not
+    // one of the "legal message sizes" the property quantifies over. The harness uses it only to
+    // force many small messages. A sender may serve such a request (then the transfer is judged
+    // like any other, below) or decline it cleanly: exactly one response with an error RCODE and
+    // no answer records. A refusal that is not clean (records before the error, several messages)
+    // is still judged below.
+    if rq.limit < 512
+        && refo.verdict == V::Invalid
+        && out.msgs.len() == 1
+        && wire::read_message(&out.msgs[0]).map(|r| r.flags & 0xf != 0 && r.counts[1] == 0).unwrap_or(false)
+    {
+        lcount("S:room-below-512-octets:clean-refusal");
+        return;
+    }
     if rq.udp && out.msgs.len() != 1 {
         report(sh, &format!("C10|sender|{rname}|more-than-one-datagram"), &|| format!("{} UDP responses", out.msgs.len()), &cj);
     }
@@ -3409,8 +3467,12 @@ fn replay_sender(sh: &Shared, case: &Value) {
             [a[0], a[1], a[2]]
         })
         .collect();
-    let r = &case["request"];
-    let rq = SReq {
+    let rq = sreq_from_json(&case["request"]);
+    run_sender_case(sh, &ks, &rq, true);
+}
+
+fn sreq_from_json(r: &Value) -> SReq {
+    SReq {
         qtype: r["qtype"].as_u64().unwrap() as u16,
         serial: r["serial"].as_u64().map(|s| s as u32),
         udp: r["udp"].as_bool().unwrap(),
@@ -3419,8 +3481,7 @@ fn replay_sender(sh: &Shared, case: &Value) {
         via_client: r["via_client"].as_bool().unwrap_or(false),
         provider: r["provider"].as_u64().unwrap_or(0) as u8,
         foreign: r["foreign"].as_bool().unwrap_or(false),
-    };
-    run_sender_case(sh, &ks, &rq, true);
+    }
 }
 
 
@@ -4081,6 +4142,832 @@ fn replay_tsig(sh: &Shared, case: &Value) {
 }
 
 // ====================================================================
+// Part E: where the old zone comes from x the shape of its name tree
+// ====================================================================
+//
+// Parts R..L hold the receiving / edited zone in a tree made by ZoneBuilder,
+// and their names sit at most one level below a name without records.  Here
+// the old content reaches the zone through every route the library offers
+// (ZoneBuilder; a first AXFR into an empty zone through interpreter +
+// ZoneUpdater; write-interface additions; a richer zone from which names were
+// emptied by write-interface removals, by an IXFR through the updater, or by
+// an AXFR through the updater), over a name tree z > a > b and z > c > e > d
+// in which every name holds records or not - names below an empty
+// non-terminal, below a name emptied in an earlier version, two levels below
+// - and is then replaced by every other content of the universe through every
+// replacement route (AXFR and IXFR through the updater; write interface:
+// incremental edits, remove_all at the apex / at the two subtrees / at an
+// inner name followed by re-adding).  Oracles: the zone holds the model
+// content after the history and after the replacement; a diff is returned
+// with the right serials; the diff applied BY THE MODEL to the old content
+// gives the new content; an IXFR served from that diff by the real
+// XfrMiddlewareSvc is read by the reference as a valid transfer of the new
+// content, and the real receiver (its zone produced by the same history)
+// ends up with it.
+
+/// kinds (see `kind_rds`) of a.z, b.a.z, c.z, e.c.z, d.e.c.z
+type EK = [u8; 5];
+const E_OWNERS: [u8; 5] = [1, 2, 3, 7, 6];
+
+fn ek_recs(k: EK) -> BTreeSet<MRec> {
+    let mut s = BTreeSet::new();
+    for (i, kind) in k.iter().enumerate() {
+        for rd in kind_rds(*kind) {
+            s.insert(MRec { owner: E_OWNERS[i], rd, ttl: *kind >> 3 });
+        }
+    }
+    s
+}
+
+/// every name holds nothing or A{1}; `wide`: the two leaves b.a.z and d.e.c.z also A{1,2} or TXT
+fn ek_universe(wide: bool) -> Vec<EK> {
+    let leaf: &[u8] = if wide { &[0, 1, 2, 3] } else { &[0, 1] };
+    let mut v = vec![];
+    for a in [0u8, 1] {
+        for b in leaf {
+            for c in [0u8, 1] {
+                for e in [0u8, 1] {
+                    for d in leaf {
+                        v.push([a, *b, c, e, *d]);
+                    }
+                }
+            }
+        }
+    }
+    v
+}
+
+fn ek_dist(a: EK, b: EK) -> usize {
+    (0..5).filter(|i| a[*i] != b[*i]).count()
+}
+
+/// How a zone gets from one version to the next.
+#[derive(Clone, Copy, PartialEq, Eq, Debug)]
+enum Step {
+    /// an AXFR in one message through the real interpreter + ZoneUpdater
+    /// (DeleteAllRecords, AddRecord.., Finished)
+    UpdaterAxfr,
+    /// a one-sequence IXFR in one message through interpreter + updater
+    UpdaterIxfr,
+    /// write interface: one update_rrset / remove_rrset per changed RRset
+    WriteIncremental,
+    /// write interface: remove_all at the apex, every RRset of the new version written
+    WriteRemoveAllApex,
+    /// write interface: remove_all at a.z and at c.z, the RRsets at and below them written again
+    WriteRemoveAllSubtrees,
+    /// write interface: remove_all at e.c.z, the RRsets at and below it written again, the rest edited incrementally
+    WriteRemoveAllInner,
+}
+
+const E_ROUTES: [(Step, &str); 6] = [
+    (Step::UpdaterAxfr, "axfr-through-updater"),
+    (Step::WriteRemoveAllApex, "write-interface-remove_all-at-apex+re-add"),
+    (Step::WriteRemoveAllSubtrees, "write-interface-remove_all-at-subtrees+re-add"),
+    (Step::WriteRemoveAllInner, "write-interface-remove_all-at-inner-name+re-add"),
+    (Step::UpdaterIxfr, "ixfr-through-updater"),
+    (Step::WriteIncremental, "write-interface-incremental"),
+];
+
+const E_ORIGINS: [&str; 6] = [
+    "ZoneBuilder",
+    "axfr-into-empty-zone",
+    "write-interface-additions",
+    "richer-zone-emptied-by-write-interface-removals",
+    "richer-zone-emptied-by-ixfr",
+    "richer-zone-replaced-by-axfr",
+];
+
+/// One step on the real zone; returns the diff the step reported.
+async fn do_step(zone: &Zone, step: Step, from_serial: u32, from: &BTreeSet<MRec>, to_serial: u32, to: &BTreeSet<MRec>) -> Result<Option<InMemoryZoneDiff>, String> {
+    match step {
+        Step::UpdaterAxfr | Step::UpdaterIxfr => {
+            let (qtype, seq) = if step == Step::UpdaterAxfr { (252u16, axfr_seq(to_serial, to)) } else { (251u16, ixfr_seq(&[(from_serial, from.clone()), (to_serial, to.clone())], 0)) };
+            let msgs = vec![build_msg(&MsgSpec::plain(qtype, true, &seq))];
+            let mut rec = RealRec::default();
+            match run_pipeline(zone, &msgs, &mut rec).await {
+                Outcome::Finished => Ok(rec.raw_diffs.pop()),
+                o => Err(format!("transfer-through-updater-not-finished:{}", outcome_name(&Ok(o)))),
+            }
+        }
+        _ => {
+            let mut w = zone.write().await;
+            let root = w.open(true).await.map_err(|e| format!("open:{e}"))?;
+            // the names whose records a remove_all takes away
+            let wiped: &[u8] = match step {
+                Step::WriteRemoveAllApex => {
+                    root.remove_all().await.map_err(|e| format!("remove_all:{e}"))?;
+                    &[1, 2, 3, 6, 7]
+                }
+                Step::WriteRemoveAllSubtrees => {
+                    for n in [1u8, 3] {
+                        node_for(&root, n).await.map_err(|e| format!("update_child:{e}"))?.remove_all().await.map_err(|e| format!("remove_all:{e}"))?;
+                    }
+                    &[1, 2, 3, 6, 7]
+                }
+                Step::WriteRemoveAllInner => {
+                    node_for(&root, 7).await.map_err(|e| format!("update_child:{e}"))?.remove_all().await.map_err(|e| format!("remove_all:{e}"))?;
+                    &[6, 7]
+                }
+                _ => &[],
+            };
+            let (rf, rt) = (rrsets_of(from), rrsets_of(to));
+            let keys: BTreeSet<(u8, u16)> = rf.keys().chain(rt.keys()).cloned().collect();
+            for k in keys {
+                if !wiped.contains(&k.0) && rf.get(&k) == rt.get(&k) {
+                    continue;
+                }
+                match rt.get(&k) {
+                    Some((ttl, set)) => {
+                        let node = node_for(&root, k.0).await.map_err(|e| format!("update_child:{e}"))?;
+                        let rds: Vec<RD> = set.iter().cloned().collect();
+                        node.update_rrset(shared_rrset(&rds, *ttl)).await.map_err(|e| format!("update_rrset:{e}"))?
+                    }
+                    None if wiped.contains(&k.0) => {}
+                    None => {
+                        let node = node_for(&root, k.0).await.map_err(|e| format!("update_child:{e}"))?;
+                        node.remove_rrset(Rtype::from_int(k.1)).await.map_err(|e| format!("remove_rrset:{e}"))?
+                    }
+                }
+            }
+            root.update_rrset(soa_rrset(to_serial)).await.map_err(|e| format!("update_rrset(soa):{e}"))?;
+            drop(root);
+            w.commit(false).await.map_err(|e| format!("commit:{e}"))
+        }
+    }
+}
+
+/// every name of part E holding A{1}, plus what `old` holds
+fn ek_richer(old: &BTreeSet<MRec>) -> BTreeSet<MRec> {
+    let mut s = ek_recs([1; 5]);
+    s.extend(old.iter().cloned());
+    s
+}
+
+/// The versions a zone of the given origin goes through before it holds `old`:
+/// (start zone, [(step, serial, content)]); the last entry is `old`.
+fn origin_history(origin: u8, old: &BTreeSet<MRec>) -> (Option<BTreeSet<MRec>>, Vec<(Step, u32, BTreeSet<MRec>)>) {
+    let rich = ek_richer(old);
+    match origin {
+        0 => (Some(old.clone()), vec![]),
+        1 => (None, vec![(Step::UpdaterAxfr, 1, old.clone())]),
+        2 => (Some(BTreeSet::new()), vec![(Step::WriteIncremental, 2, old.clone())]),
+        3 => (Some(rich), vec![(Step::WriteIncremental, 2, old.clone())]),
+        4 => (None, vec![(Step::UpdaterAxfr, 1, rich), (Step::UpdaterIxfr, 2, old.clone())]),
+        _ => (None, vec![(Step::UpdaterAxfr, 1, rich), (Step::UpdaterAxfr, 2, old.clone())]),
+    }
+}
+
+/// what went wrong while a zone was taken through its history
+struct HistoryFault {
+    /// index of the step
+    at: usize,
+    what: String,
+    diff: Option<(Obs, DiffObs, Obs)>,
+}
+
+/// Build a zone of the given origin holding `old`; returns it with the
+/// logical serial it is at.  Every diff reported on the way is checked.
+async fn build_origin(origin: u8, old: &BTreeSet<MRec>) -> Result<(Zone, u32), HistoryFault> {
+    let (start, steps) = origin_history(origin, old);
+    let zone = match &start {
+        Some(recs) => build_zone(1, recs),
+        None => ZoneBuilder::new(name(0), Class::IN).build(),
+    };
+    let mut cur: Option<(u32, BTreeSet<MRec>)> = start.map(|s| (1, s));
+    for (i, (step, serial, to)) in steps.iter().enumerate() {
+        let empty = BTreeSet::new();
+        let (fs, from) = cur.as_ref().map(|(s, r)| (*s, r)).unwrap_or((0, &empty));
+        let d = do_step(&zone, *step, fs, from, *serial, to).await.map_err(|e| HistoryFault { at: i, what: e, diff: None })?;
+        let want = model_obs(*serial, to);
+        if observe(&zone) != want {
+            return Err(HistoryFault { at: i, what: "content-after-step!=model".into(), diff: None });
+        }
+        if let Some((fs, from)) = &cur {
+            let before = model_obs(*fs, from);
+            match d {
+                None => return Err(HistoryFault { at: i, what: "no-diff-returned".into(), diff: None }),
+                Some(d) => {
+                    let dobs = diff_obs(&d);
+                    if diff_mismatch(&before, &dobs, &want).is_some() {
+                        return Err(HistoryFault { at: i, what: "diff-wrong".into(), diff: Some((before, dobs, want)) });
+                    }
+                }
+            }
+        }
+        cur = Some((*serial, to.clone()));
+    }
+    Ok((zone, cur.map(|c| c.0).unwrap_or(1)))
+}
+
+/// Where the first record on which diff(old) and new disagree sits in the
+/// name tree of the OLD content (a structural class, from the model only).
+fn tree_position(before: &Obs, d: &DiffObs, after: &Obs) -> String {
+    let got = apply_diff(before, d);
+    let want: BTreeSet<CRec> = after.iter().cloned().collect();
+    let Some(bad) = got.symmetric_difference(&want).next().cloned() else { return "none".into() };
+    if bad.rtype == 6 {
+        return "soa".into();
+    }
+    let holds = |n: &str| before.iter().any(|c| c.owner == n);
+    let labels: Vec<&str> = bad.owner.split('.').collect();
+    // the names strictly between the owner and the apex
+    let mut empty_above = 0;
+    let mut above = 0;
+    for i in 1..labels.len().saturating_sub(1) {
+        above += 1;
+        if !holds(&labels[i..].join(".")) {
+            empty_above += 1;
+        }
+    }
+    match (above, empty_above) {
+        (0, _) => "name-directly-below-the-apex".into(),
+        (_, 0) => "name-below-names-that-hold-records".into(),
+        (a, e) if a == e && a >= 2 => "name-two-or-more-levels-below-names-without-records".into(),
+        (_, e) if e >= 1 && above > e => "name-below-a-name-without-records-and-a-name-with-records".into(),
+        _ => "name-below-a-name-without-records".into(),
+    }
+}
+
+fn ek_json(origin: u8, old: EK, route: usize, new: EK) -> Value {
+    json!({"part": "E", "origin": origin, "origin_name": E_ORIGINS[origin as usize], "old": old, "route": route, "route_name": E_ROUTES[route].1, "new": new, "names": ["a.z", "b.a.z", "c.z", "e.c.z", "d.e.c.z"]})
+}
+
+fn run_ent_case(sh: &Shared, origin: u8, old_k: EK, route: usize, new_k: EK, verbose: bool) {
+    let (old, new) = (ek_recs(old_k), ek_recs(new_k));
+    let (step, rname) = E_ROUTES[route];
+    let oname = E_ORIGINS[origin as usize];
+    let oclass = if origin == 0 { "old-zone-built-by-ZoneBuilder" } else { "old-zone-populated-through-updater-or-write-interface" };
+    let cj = || ek_json(origin, old_k, route, new_k);
+    sh.stats.eval();
+    sh.stats.distinct(fnv(format!("E:{origin}:{old_k:?}:{route}:{new_k:?}").as_bytes()));
+    lcount(&format!("E:origin={oname}:route={rname}"));
+    // ---- the history and the replacement on the real zone
+    struct Out {
+        os: u32,
+        after_history: Obs,
+        diff: Option<InMemoryZoneDiff>,
+        after: Obs,
+        served: Option<Result<SOut, String>>,
+    }
+    let r = guard(|| {
+        RT.with(|rt| {
+            rt.block_on(async {
+                let (zone, os) = match build_origin(origin, &old).await {
+                    Ok(x) => x,
+                    Err(f) => return Err(f),
+                };
+                let after_history = observe(&zone);
+                let diff = match do_step(&zone, step, os, &old, os + 1, &new).await {
+                    Ok(d) => d,
+                    Err(e) => return Err(HistoryFault { at: usize::MAX, what: e, diff: None }),
+                };
+                let after = observe(&zone);
+                // an IXFR from the old serial, served from the diff the replacement reported
+                let served = match &diff {
+                    Some(d) => {
+                        let rq = SReq { qtype: 251, serial: Some(os), udp: false, limit: u16::MAX, compat: false, via_client: false, provider: 0, foreign: false };
+                        let p = Provider { zone: zone.clone(), diffs: vec![Arc::new(d.clone())], compat: false };
+                        Some(drive_sender(XfrMiddlewareSvc::<Vec<u8>, NoSvc, (), Provider>::new(NoSvc, p, 1), &rq).await)
+                    }
+                    None => None,
+                };
+                Ok(Out { os, after_history, diff, after, served })
+            })
+        })
+    });
+    LOCAL.with(|l| {
+        let mut l = l.borrow_mut();
+        l.runs += 1;
+        l.transitions += 2;
+    });
+    let out = match r {
+        Err(p) => {
+            report(sh, &format!("C10|panic|zone-history|{}", panic_class(&p)), &|| format!("panic ({p}) while a zone of origin {oname} was replaced through {rname}"), &cj);
+            return;
+        }
+        Ok(Err(f)) => {
+            let which = if f.at == usize::MAX { format!("replacement:{rname}") } else { format!("history:{oname}:step{}", f.at) };
+            lcount(&format!("E:fault:{which}:{}", err_class(f.what.clone())));
+            let pos = f.diff.as_ref().map(|(b, d, a)| format!("|{}|{}", diff_mismatch(b, d, a).unwrap_or_default(), tree_position(b, d, a))).unwrap_or_default();
+            report(
+                sh,
+                &format!("C10|zone-history|{which}|{}{pos}", err_class(f.what.clone())),
+                &|| match &f.diff {
+                    Some((b, d, a)) => format!("{}: removed {} added {}; before {} after {}", f.what, obs_json(&d.removed), obs_json(&d.added), obs_json(b), obs_json(a)),
+                    None => f.what.clone(),
+                },
+                &cj,
+            );
+            return;
+        }
+        Ok(Ok(o)) => o,
+    };
+    let os = out.os;
+    let old_obs = model_obs(os, &old);
+    let new_obs = model_obs(os + 1, &new);
+    LOCAL.with(|l| {
+        let mut l = l.borrow_mut();
+        l.states.insert(obs_hash(&out.after));
+    });
+    if verbose {
+        println!("zone-history case: {}", cj());
+        println!("  old (model)   {}", obs_json(&old_obs));
+        println!("  after history {}", obs_json(&out.after_history));
+        println!("  new (model)   {}", obs_json(&new_obs));
+        println!("  after         {}", obs_json(&out.after));
+        if let Some(d) = &out.diff {
+            let d = diff_obs(d);
+            println!("  diff {}->{} removed {} added {}", d.start, d.end, obs_json(&d.removed), obs_json(&d.added));
+        }
+    }
+    if out.after_history != old_obs {
+        report(sh, &format!("C10|zone-history|history:{oname}|content-after-history!=model"), &|| format!("the zone holds {} instead of {}", obs_json(&out.after_history), obs_json(&old_obs)), &cj);
+        return;
+    }
+    if out.after != new_obs {
+        report(
+            sh,
+            &format!("C10|zone-history|replacement:{rname}|{oclass}|content-after-replacement!=model"),
+            &|| format!("after the replacement the zone holds {} instead of {}", obs_json(&out.after), obs_json(&new_obs)),
+            &cj,
+        );
+        return;
+    }
+    let Some(d) = &out.diff else {
+        report(sh, &format!("C10|diff|{rname}|{oclass}|no-diff-returned"), &|| "a replacement of a zone that has a SOA by a version with a newer serial returned no diff".into(), &cj);
+        return;
+    };
+    if let Some(why) = diff_trait_view_differs(d) {
+        report(sh, &format!("C10|diff|{rname}|diff-trait-view-differs-from-fields:{why}"), &|| "ZoneDiff trait view and fields disagree".into(), &cj);
+    }
+    let dobs = diff_obs(d);
+    if (dobs.start, dobs.end) != (actual(os), actual(os + 1)) {
+        report(sh, &format!("C10|diff|{rname}|serials"), &|| format!("diff serials {}->{} instead of {}->{}", dobs.start, dobs.end, actual(os), actual(os + 1)), &cj);
+    }
+    match diff_mismatch(&old_obs, &dobs, &new_obs) {
+        None => lcount("E:diff-correct"),
+        Some(k) => {
+            let pos = tree_position(&old_obs, &dobs, &new_obs);
+            lcount(&format!("E:diff-wrong:{rname}:{k}:{pos}"));
+            report(
+                sh,
+                &format!("C10|diff|{rname}|{oclass}|{k}|{pos}"),
+                &|| {
+                    format!(
+                        "old zone from {oname}, replaced through {rname}: the diff returned, applied to the old content, does not give the new content ({k}; {pos}): removed {} added {}; old {} new {}",
+                        obs_json(&dobs.removed),
+                        obs_json(&dobs.added),
+                        obs_json(&old_obs),
+                        obs_json(&new_obs)
+                    )
+                },
+                &cj,
+            );
+        }
+    }
+    // ---- the IXFR served from the diff
+    let served = match out.served {
+        Some(Ok(s)) => s,
+        Some(Err(e)) => {
+            report(sh, &format!("C10|sender|ixfr-served-from-the-reported-diff|{}", err_class(e.clone())), &|| format!("sender run failed: {e}"), &cj);
+            return;
+        }
+        None => return,
+    };
+    if !served.errors.is_empty() {
+        report(sh, "C10|sender|ixfr-served-from-the-reported-diff|service-error", &|| format!("response stream carries errors {:?}", served.errors), &cj);
+        return;
+    }
+    let refo = reference(&served.msgs, &old_obs);
+    if refo.verdict != V::Valid || refo.final_zone.as_ref() != Some(&new_obs) {
+        let cause = match &refo.final_zone {
+            Some(f) => {
+                let (g, w): (BTreeSet<_>, BTreeSet<_>) = (f.iter().collect(), new_obs.iter().collect());
+                format!("{}{}", if g.difference(&w).next().is_some() { "stale-records-left" } else { "" }, if w.difference(&g).next().is_some() { "+records-missing" } else { "" })
+            }
+            None => format!("{:?}({})", refo.verdict, refo.reason),
+        };
+        lcount(&format!("E:ixfr-from-diff-wrong:{rname}:{cause}"));
+        report(
+            sh,
+            &format!("C10|sender|ixfr-served-from-the-reported-diff|{rname}|{oclass}|{cause}"),
+            &|| {
+                format!(
+                    "old zone from {oname}, replaced through {rname}: the IXFR the real sender serves from the reported diff is read as {:?}/{} and leads from {} to {} instead of {}",
+                    refo.verdict,
+                    refo.reason,
+                    obs_json(&old_obs),
+                    refo.final_zone.as_ref().map(obs_json).unwrap_or(Value::Null),
+                    obs_json(&new_obs)
+                )
+            },
+            &cj,
+        );
+        return;
+    }
+    lcount("E:ixfr-from-diff-correct");
+    // the real receiver, its zone produced by the same history
+    let old2 = old.clone();
+    let mk = move || RT.with(|rt| rt.block_on(build_origin(origin, &old2))).map(|x| x.0).unwrap_or_else(|_| build_zone(os, &old2));
+    let c = Case {
+        part: "S",
+        label: format!("ixfr-served-from-the-reported-diff/origin={oname}/route={rname}"),
+        old_kinds: [0, 0, 0],
+        old_serial: os,
+        old: &old,
+        honest_new: Some(new_obs.clone()),
+        honest_versions: vec![old_obs.clone(), new_obs],
+        fault: None,
+        msgs: served.msgs.clone(),
+        custom_old: Some((old_obs, &mk)),
+        replay_as: Some(cj()),
+        via_client: None,
+    };
+    judge(sh, &c, verbose);
+    sample(sh, &format!("E:{origin}:{route}"), &cj);
+}
+
+fn run_ent_part(sh: &Shared, quick: bool) {
+    let uni = ek_universe(!quick);
+    let mut work = vec![];
+    for origin in 0..E_ORIGINS.len() as u8 {
+        for o in &uni {
+            for route in 0..E_ROUTES.len() {
+                work.push((origin, *o, route));
+            }
+        }
+    }
+    lcount(&format!("E:contents={}:origins={}:routes={}", uni.len(), E_ORIGINS.len(), E_ROUTES.len()));
+    work.par_iter().for_each(|(origin, o, route)| {
+        for n in &uni {
+            // thorough: every other content of the wide universe at most 3 names away, plus the empty and the full one
+            if !quick && ek_dist(*o, *n) > 3 && *n != [0; 5] && *n != [1; 5] {
+                continue;
+            }
+            run_ent_case(sh, *origin, *o, *route, *n, false);
+        }
+    });
+}
+
+fn replay_ent(sh: &Shared, case: &Value) {
+    let ek = |v: &Value| -> EK {
+        let a: Vec<u8> = v.as_array().unwrap().iter().map(|x| x.as_u64().unwrap() as u8).collect();
+        [a[0], a[1], a[2], a[3], a[4]]
+    };
+    run_ent_case(sh, case["origin"].as_u64().unwrap() as u8, ek(&case["old"]), case["route"].as_u64().unwrap() as usize, ek(&case["new"]), true);
+}
+
+// ====================================================================
+// Part I: a writer commits new versions while a transfer is served
+// ====================================================================
+//
+// The sender's zone is at version 2 (edited from version 1 with the write
+// interface, diff kept) when the request arrives.  The response stream is
+// consumed item by item on the current-thread runtime; the environment event
+// "the writer commits the next version (3, then 4) with the write interface"
+// is inserted at every position of that consumption: after the service call
+// returned the stream and before its first poll, and after every k items
+// taken from it - each after 0, 1 or 2 extra turns of the runtime, which let
+// the tasks the service spawned advance without the consumer polling.
+// Oracle: the emitted messages are, for the independent reference, a valid
+// transfer (opening SOA, content, closing SOA) of ONE version of the zone
+// that was current at some moment between the arrival of the request and the
+// end of the stream: version 2, or a version committed before the stream
+// ended - compared with the per-version content models; the real receiver
+// holding the requester's version ends up with that version.  Which thread
+// gets how far when does not enter the verdict.
+
+#[derive(Clone)]
+struct LiveProvider {
+    zone: Zone,
+    /// every diff committed so far; the writer appends
+    diffs: Arc<Mutex<Vec<Arc<InMemoryZoneDiff>>>>,
+    compat: bool,
+}
+
+impl<M> XfrDataProvider<M> for LiveProvider {
+    type Diff = Arc<InMemoryZoneDiff>;
+    fn request<Octs>(
+        &self,
+        _req: &Request<Octs, M>,
+        diff_from: Option<Serial>,
+    ) -> Pin<Box<dyn Future<Output = Result<XfrData<Self::Diff>, XfrDataProviderError>> + Sync + Send + '_>>
+    where
+        Octs: octseq::Octets + Send + Sync,
+    {
+        let all = self.diffs.lock().unwrap().clone();
+        let diffs = match diff_from {
+            Some(s) => all.iter().position(|d| d.start_serial == s).map(|p| all[p..].to_vec()).unwrap_or_default(),
+            None => vec![],
+        };
+        Box::pin(std::future::ready(Ok(XfrData::new(self.zone.clone(), diffs, self.compat))))
+    }
+}
+
+/// The writer commits the next version after `at` items were taken from the
+/// response stream and `yields` further turns of the runtime.
+#[derive(Clone, Copy, Debug, PartialEq, Eq, PartialOrd, Ord)]
+struct Ev {
+    at: usize,
+    yields: u8,
+}
+
+struct IOut {
+    msgs: Vec<Bytes>,
+    errors: Vec<String>,
+    /// logical serial of every version committed before the stream ended, and
+    /// how many response messages had been received by then
+    committed: Vec<(u32, usize)>,
+    items: usize,
+}
+
+async fn drive_interleaved<S>(svc: S, rq: &SReq, zone: &Zone, chain: &[(u32, BTreeSet<MRec>)], evs: &[Ev], sink: &Arc<Mutex<Vec<Arc<InMemoryZoneDiff>>>>) -> Result<IOut, String>
+where
+    S: Service<Vec<u8>, (), Target = Vec<u8>>,
+{
+    let mut q = MessageBuilder::new_vec().question();
+    q.header_mut().set_id(0x4949);
+    q.push((name(0), Rtype::from_int(rq.qtype))).unwrap();
+    let msg = if let Some(s) = rq.serial {
+        let mut a = q.authority();
+        a.push((name(0), Class::IN, Ttl::from_secs(TTL), data(RD::Soa(s)))).unwrap();
+        a.into_message()
+    } else {
+        q.into_message()
+    };
+    let mut out = IOut { msgs: vec![], errors: vec![], committed: vec![], items: 0 };
+    let mut stream = svc.call(mk_request(msg, rq)).await;
+    let mut next_ev = 0;
+    loop {
+        while next_ev < evs.len() && evs[next_ev].at == out.items {
+            for _ in 0..evs[next_ev].yields {
+                tokio::task::yield_now().await;
+            }
+            let (from, to) = (&chain[1 + next_ev], &chain[2 + next_ev]);
+            match edit_to(zone, &from.1, &to.1, to.0).await? {
+                Some(d) => sink.lock().unwrap().push(Arc::new(d)),
+                None => return Err("no-diff-from-commit".into()),
+            }
+            out.committed.push((to.0, out.msgs.len()));
+            next_ev += 1;
+        }
+        let item = match tokio::time::timeout(std::time::Duration::from_secs(10), stream.next()).await {
+            Err(_) => return Err("response-stream-never-ends".into()),
+            Ok(None) => break,
+            Ok(Some(i)) => i,
+        };
+        out.items += 1;
+        match item {
+            Ok(cr) => {
+                let (resp, _fb) = cr.into_inner();
+                if let Some(r) = resp {
+                    out.msgs.push(Bytes::copy_from_slice(r.finish().as_dgram_slice()));
+                }
+            }
+            Err(e) => out.errors.push(format!("{e}")),
+        }
+    }
+    Ok(out)
+}
+
+async fn run_interleaved(chain: &[(u32, BTreeSet<MRec>)], rq: &SReq, evs: &[Ev]) -> Result<IOut, String> {
+    let zone = build_zone(chain[0].0, &chain[0].1);
+    let sink: Arc<Mutex<Vec<Arc<InMemoryZoneDiff>>>> = Default::default();
+    match edit_to(&zone, &chain[0].1, &chain[1].1, chain[1].0).await? {
+        Some(d) => sink.lock().unwrap().push(Arc::new(d)),
+        None => return Err("no-diff-from-commit".into()),
+    }
+    match rq.provider {
+        0 => drive_interleaved(XfrMiddlewareSvc::<Vec<u8>, NoSvc, (), LiveProvider>::new(NoSvc, LiveProvider { zone: zone.clone(), diffs: sink.clone(), compat: rq.compat }, 1), rq, &zone, chain, evs, &sink).await,
+        _ => drive_interleaved(XfrMiddlewareSvc::<Vec<u8>, NoSvc, (), Zone>::new(NoSvc, zone.clone(), 1), rq, &zone, chain, evs, &sink).await,
+    }
+}
+
+fn evs_json(evs: &[Ev]) -> Value {
+    json!(evs.iter().map(|e| json!({"at": e.at, "yields": e.yields})).collect::<Vec<_>>())
+}
+
+fn run_interleave_case(sh: &Shared, ks: &[Kinds], rq: &SReq, evs: &[Ev], verbose: bool) {
+    let chain: Vec<(u32, BTreeSet<MRec>)> = ks.iter().enumerate().map(|(i, k)| (i as u32 + 1, zone_recs(*k))).collect();
+    let all_obs: Vec<Obs> = chain.iter().map(|(s, r)| model_obs(*s, r)).collect();
+    let r = guard(|| RT.with(|rt| rt.block_on(run_interleaved(&chain, rq, evs))));
+    sh.stats.eval();
+    LOCAL.with(|l| {
+        let mut l = l.borrow_mut();
+        l.runs += 1;
+        l.transitions += 1 + evs.len() as u64;
+    });
+    sh.stats.distinct(fnv(format!("I:{ks:?}:{rq:?}:{evs:?}").as_bytes()));
+    let cj = || json!({"part": "I", "zones": ks, "request": sreq_json(rq), "events": evs_json(evs)});
+    let rname = format!(
+        "{}/{}{}{}",
+        if rq.qtype == 252 {
+            "axfr"
+        } else if rq.serial == Some(1) && rq.provider == 0 {
+            "ixfr-with-diffs"
+        } else {
+            "ixfr-answered-axfr-style"
+        },
+        if rq.udp { "udp" } else { "tcp" },
+        if rq.compat { "/compat" } else { "" },
+        ["", "/provider=Zone"][rq.provider.min(1) as usize],
+    );
+    let out = match r {
+        Err(p) => {
+            report(sh, &format!("C10|panic|sender|writer-commits-during-the-transfer|{}", panic_class(&p)), &|| format!("XfrMiddlewareSvc panicked: {p}; request {rq:?} events {evs:?}"), &cj);
+            return;
+        }
+        Ok(Err(e)) => {
+            report(sh, &format!("C10|sender|{rname}|writer-commits-during-the-transfer|{}", err_class(e.clone())), &|| format!("sender run failed: {e}; request {rq:?} events {evs:?}"), &cj);
+            return;
+        }
+        Ok(Ok(o)) => o,
+    };
+    // when the first commit landed, as seen by the consumer of the stream
+    let when = match (evs.first(), out.committed.first()) {
+        (_, None) => "no-commit-before-the-end-of-the-stream",
+        (Some(e), _) if e.at == 0 && e.yields == 0 => "commit-before-the-response-stream-was-first-polled",
+        (_, Some((_, 0))) => "commit-before-the-first-response",
+        _ => "commit-between-responses",
+    };
+    lcount(&format!("I:{rname}:{when}:commits={}", out.committed.len()));
+    if verbose {
+        println!("interleaving case: zones={ks:?} request={rq:?} events={evs:?}");
+        println!("  items {} messages {} errors {:?} committed (serial, messages received before) {:?}", out.items, out.msgs.len(), out.errors, out.committed);
+    }
+    if !out.errors.is_empty() {
+        report(sh, &format!("C10|sender|{rname}|writer-commits-during-the-transfer|service-error"), &|| format!("response stream carries errors {:?}", out.errors), &cj);
+        return;
+    }
+    let client_obs = &all_obs[0];
+    let refo = reference(&out.msgs, client_obs);
+    if verbose {
+        println!("  reference: {:?} reason={} xfr={} final {}", refo.verdict, refo.reason, refo.xfr, refo.final_zone.as_ref().map(obs_json).unwrap_or(Value::Null));
+    }
+    // (see run_sender_case) room below 512 octets may be declined by one clean error response
+    if rq.limit < 512 && refo.verdict == V::Invalid && out.msgs.len() == 1 && wire::read_message(&out.msgs[0]).map(|r| r.flags & 0xf != 0 && r.counts[1] == 0).unwrap_or(false) {
+        lcount("I:room-below-512-octets:clean-refusal");
+        return;
+    }
+    if refo.verdict == V::Open {
+        lcount("I:not-judged(soa-soa)");
+        return;
+    }
+    // the versions that were current at some moment of the transfer
+    let mut allowed: Vec<&Obs> = vec![&all_obs[1]];
+    for (s, _) in &out.committed {
+        allowed.push(&all_obs[*s as usize - 1]);
+    }
+    let good = refo.verdict == V::Valid && refo.final_zone.as_ref().map(|f| allowed.contains(&f)).unwrap_or(false);
+    if !good {
+        let cause = match (&refo.final_zone, refo.verdict) {
+            (Some(f), V::Valid | V::Either) => {
+                let soa_of = |o: &Obs| o.iter().filter(|c| c.rtype == 6).cloned().collect::<Vec<_>>();
+                let content_of = |o: &Obs| o.iter().filter(|c| c.rtype != 6).cloned().collect::<Vec<_>>();
+                let si = all_obs.iter().position(|v| soa_of(v) == soa_of(f));
+                let ci: Vec<usize> = (0..all_obs.len()).filter(|i| content_of(&all_obs[*i]) == content_of(f)).collect();
+                match si {
+                    Some(i) if ci.contains(&i) => "a-version-that-was-not-current-during-the-transfer".to_string(),
+                    Some(_) if !ci.is_empty() => "soa-of-one-version-frames-the-records-of-another".to_string(),
+                    Some(_) => "soa-of-one-version-frames-records-of-no-single-version".to_string(),
+                    None => "soa-of-no-version".to_string(),
+                }
+            }
+            _ => format!("not-a-valid-transfer:{:?}({})", refo.verdict, refo.reason),
+        };
+        report(
+            sh,
+            &format!("C10|sender|{rname}|writer-commits-during-the-transfer|{when}|{cause}"),
+            &|| {
+                format!(
+                    "the sender was at version 2 when the request arrived; the writer committed {:?} (logical serial, responses received before) while the stream was consumed (events {:?}); the emitted stream is read as {:?}/{} yielding {} which is no version of the zone that was current during the transfer ({cause})",
+                    out.committed,
+                    evs,
+                    refo.verdict,
+                    refo.reason,
+                    refo.final_zone.as_ref().map(obs_json).unwrap_or(Value::Null)
+                )
+            },
+            &cj,
+        );
+        return;
+    }
+    // the real receiver holding version 1
+    let c = Case {
+        part: "S",
+        label: format!("sender-interleaved:{rname}/limit={}/zones={:?}/events={:?}", rq.limit, ks, evs),
+        old_kinds: ks[0],
+        old_serial: 1,
+        old: &chain[0].1,
+        honest_new: refo.final_zone.clone(),
+        honest_versions: all_obs.clone(),
+        fault: None,
+        msgs: out.msgs.clone(),
+        custom_old: None,
+        replay_as: Some(cj()),
+        via_client: None,
+    };
+    judge(sh, &c, verbose);
+    sample(sh, &format!("I:{rname}:{when}"), &cj);
+}
+
+fn interleave_requests(quick: bool) -> Vec<SReq> {
+    let base = SReq { qtype: 252, serial: None, udp: false, limit: u16::MAX, compat: false, via_client: false, provider: 0, foreign: false };
+    let mut v = vec![
+        base.clone(),
+        // one RR per response: an insertion point between any two records
+        SReq { compat: true, ..base.clone() },
+        // the requester's serial is unknown to the sender: answered AXFR-style
+        SReq { qtype: 251, serial: Some(0), ..base.clone() },
+        SReq { qtype: 251, serial: Some(0), compat: true, ..base.clone() },
+        // answered from the diffs
+        SReq { qtype: 251, serial: Some(1), ..base.clone() },
+        SReq { qtype: 251, serial: Some(1), limit: 90, ..base.clone() },
+        // the `Zone` itself as data provider (no diffs)
+        SReq { provider: 1, ..base.clone() },
+        SReq { qtype: 251, serial: Some(1), provider: 1, ..base.clone() },
+    ];
+    if !quick {
+        v.push(SReq { limit: 90, ..base.clone() });
+        v.push(SReq { qtype: 251, serial: Some(0), limit: 90, ..base.clone() });
+        v.push(SReq { qtype: 251, serial: Some(1), udp: true, limit: 512, ..base.clone() });
+        v.push(SReq { qtype: 251, serial: Some(0), udp: true, limit: 512, ..base.clone() });
+    }
+    v
+}
+
+fn run_interleave_part(sh: &Shared, quick: bool) {
+    // versions 1 (requester), 2 (current when the request arrives), 3 and 4 (committed meanwhile)
+    let mut chains: Vec<Vec<Kinds>> = vec![vec![[1, 0, 0], [2, 0, 0], [2, 3, 0], [0, 3, 1]], vec![[0, 1, 0], [1, 1, 0], [1, 0, 3], [3, 0, 3]]];
+    if !quick {
+        let menu: [Kinds; 4] = [[1, 0, 0], [2, 0, 0], [1, 3, 0], [0, 1, 3]];
+        for a in menu {
+            for b in menu {
+                for c in menu {
+                    for d in menu {
+                        if a != b && b != c && c != d && !chains.contains(&vec![a, b, c, d]) {
+                            chains.push(vec![a, b, c, d]);
+                        }
+                    }
+                }
+            }
+        }
+    }
+    let (max_at, yields): (usize, &[u8]) = if quick { (6, &[0, 1, 2]) } else { (12, &[0, 1, 2, 3]) };
+    let mut scheds: Vec<Vec<Ev>> = vec![vec![]];
+    for at in 0..=max_at {
+        for y in yields {
+            let e = Ev { at, yields: *y };
+            // one version, or two versions at the same point
+            scheds.push(vec![e]);
+            scheds.push(vec![e, Ev { at, yields: 0 }]);
+        }
+    }
+    if !quick {
+        // every pair of insertion points
+        for a1 in 0..=8usize {
+            for y1 in [0u8, 1] {
+                for a2 in a1 + 1..=9usize {
+                    for y2 in [0u8, 1] {
+                        scheds.push(vec![Ev { at: a1, yields: y1 }, Ev { at: a2, yields: y2 }]);
+                    }
+                }
+            }
+        }
+    }
+    let reqs = interleave_requests(quick);
+    lcount(&format!("I:chains={}:requests={}:schedules={}", chains.len(), reqs.len(), scheds.len()));
+    let mut work = vec![];
+    for (ci, ks) in chains.iter().enumerate() {
+        for rq in &reqs {
+            for s in &scheds {
+                // (pairs of insertion points on the two base chains only)
+                if ci >= 2 && s.len() == 2 && s[0].at != s[1].at {
+                    continue;
+                }
+                work.push((ks, rq, s));
+            }
+        }
+    }
+    lcount(&format!("I:cases={}", work.len()));
+    work.par_iter().for_each(|(ks, rq, s)| run_interleave_case(sh, ks, rq, s, false));
+}
+
+fn replay_interleave(sh: &Shared, case: &Value) {
+    let ks: Vec<Kinds> = case["zones"]
+        .as_array()
+        .unwrap()
+        .iter()
+        .map(|z| {
+            let a: Vec<u8> = z.as_array().unwrap().iter().map(|x| x.as_u64().unwrap() as u8).collect();
+            [a[0], a[1], a[2]]
+        })
+        .collect();
+    let evs: Vec<Ev> = case["events"].as_array().unwrap().iter().map(|e| Ev { at: e["at"].as_u64().unwrap() as usize, yields: e["yields"].as_u64().unwrap() as u8 }).collect();
+    run_interleave_case(sh, &ks, &sreq_from_json(&case["request"]), &evs, true);
+}
+
+// ====================================================================
 // main
 // ====================================================================
 
@@ -4106,6 +4993,8 @@ fn replay(sh: &Shared, case: &Value, b: &Bounds) {
         "S" => replay_sender(sh, case),
         "H" => replay_history(sh, case, b),
         "T" => replay_tsig(sh, case),
+        "E" => replay_ent(sh, case),
+        "I" => replay_interleave(sh, case),
         _ => {
             let old_k = kinds(&case["old"]);
             let old = zone_recs(old_k);
@@ -4157,7 +5046,14 @@ fn main() {
         npairs = pairs.len();
         let t0 = std::time::Instant::now();
         // (C10_ONLY_L=1: only part L, a development aid like C10_DRY)
-        if std::env::var("C10_ONLY_L").is_err() {
+        let only_ei = std::env::var("C10_ONLY_EI").is_ok();
+        if only_ei {
+            // (C10_ONLY_EI=1: only parts E and I, a development aid)
+            run_ent_part(&sh, ctx.quick());
+            eprintln!("part E done at {:.1}s ({} evaluations)", t0.elapsed().as_secs_f64(), sh.stats.evals());
+            run_interleave_part(&sh, ctx.quick());
+            eprintln!("part I done at {:.1}s ({} evaluations)", t0.elapsed().as_secs_f64(), sh.stats.evals());
+        } else if std::env::var("C10_ONLY_L").is_err() {
             pairs.par_iter().for_each(|(o, n)| run_pair(&sh, *o, *n, &b));
             eprintln!("parts R+F done at {:.1}s ({} evaluations)", t0.elapsed().as_secs_f64(), sh.stats.evals());
             run_diff_part(&sh, &b);
@@ -4172,8 +5068,14 @@ fn main() {
             eprintln!("part H done at {:.1}s ({} evaluations)", t0.elapsed().as_secs_f64(), sh.stats.evals());
             run_tsig_part(&sh, &b);
             eprintln!("part T done at {:.1}s ({} evaluations)", t0.elapsed().as_secs_f64(), sh.stats.evals());
+            run_ent_part(&sh, ctx.quick());
+            eprintln!("part E done at {:.1}s ({} evaluations)", t0.elapsed().as_secs_f64(), sh.stats.evals());
+            run_interleave_part(&sh, ctx.quick());
+            eprintln!("part I done at {:.1}s ({} evaluations)", t0.elapsed().as_secs_f64(), sh.stats.evals());
         }
-        run_ttl_part(&sh, &b);
+        if !only_ei {
+            run_ttl_part(&sh, &b);
+        }
         eprintln!("part L done at {:.1}s ({} evaluations)", t0.elapsed().as_secs_f64(), sh.stats.evals());
     }
     // merge the per-thread statistics
@@ -4197,7 +5099,7 @@ fn main() {
             "traces_validated_against_impl": total.runs,
             "evaluations": sh.stats.evals(),
             "distinct_nontrivial": sh.stats.distinct_count(),
-            "rule": "(part L cases count like the cases of the part they re-run, with the SOA plan in the key) distinct (old zone, exact response octets) receiver cases with >=2 messages, a fault, or a changed zone; plus distinct (old zone, non-empty edit sequence, commit mode) diff cases; plus distinct (old,mid,new,request) sender cases; plus distinct (old, first stream, cut, abort kind, second target, second form) histories; plus distinct (RNAME extension, request kind) TSIG sender cases; part W cases count like part R/F cases",
+            "rule": "(part L cases count like the cases of the part they re-run, with the SOA plan in the key) distinct (old zone, exact response octets) receiver cases with >=2 messages, a fault, or a changed zone; plus distinct (old zone, non-empty edit sequence, commit mode) diff cases; plus distinct (old,mid,new,request) sender cases; plus distinct (old, first stream, cut, abort kind, second target, second form) histories; plus distinct (RNAME extension, request kind) TSIG sender cases; part W cases count like part R/F cases; plus distinct (zone origin, old content, replacement route, new content) cases of part E; plus distinct (version chain, request, commit schedule) cases of part I (the receiver run of a part E / part I case is a second evaluation of that case)",
             "exhaustive": true,
             "bounds": {
                 "zones": 64, "ordered_pairs": npairs, "pair_distance": b.max_dist, "all_splits_up_to_rrs": b.all_splits_upto, "beyond": "all splits with <=2 cuts + one RR per message",
@@ -4207,6 +5109,8 @@ fn main() {
                 "serial_schemes": format!("{:?} as (start, step); part S complete under all, parts R (pairs <=1 apart, <=1 cut + one RR per message) and D (<=1 edit) under schemes 1..", SCHEMES),
                 "wire_stream_client": format!("pairs <={} RRsets apart, serial schemes 0 and 1, honest splits: {}, all faults on the single-message and one-RR-per-message packagings (scheme 0)", b.wire_dist, if b.wire_all_splits_upto > 0 { format!("all up to {} RRs, beyond <=1 cut + one RR per message", b.wire_all_splits_upto) } else { "<=1 cut + one RR per message".to_string() }),
                 "ttl_axis": format!("part L: RRset TTL menu {:?}, SOA menu (TTL index, [refresh, retry, expire, minimum]) {:?}; TTL universe of {} zones (a.z: none | A,Ax2,TXT x TTL; b.a.z: none | TXT x {} TTLs), all ordered pairs through axfr / axfr-style ixfr / ixfr RR-granular, RRset-granular, added-records-carry-new-ttl, all splits up to {} RRs; 2-step streams and faults on the 7-zone sub-universe (faults: {}); SOA plans {} x 5 content pairs; diff edits: {} ops, sequences <= {}{}; sender: TTL pairs <= {} RRset apart + 3-chains of the sub-universe + SOA plans x 4 chains, 12 request kinds; stream client and histories on the sub-universe and under SOA plans; edit-shape universe of {} zones (a.z: A{{1}} | A{{1,2}} | A{{3}} | A{{1,3}} x {} TTLs): the ordered pairs with A{{3}} or A{{1,3}} on a side (record edit keep+add, keep+remove, keep+add+remove, replace all, none x TTL same, raised, lowered; counted per shape in the histogram under L:shape:) through the receiver (all stream forms), the sender (2-version chains{}), the stream client, and as old contents / operations of the diff edits", TTLS, SOAVS, ttl_universe(b.ttl_wide).len(), if b.ttl_wide { 2 } else { 1 }, if b.ttl_wide { 8 } else { 6 }, if b.ttl_wide { "all pairs" } else { "4 pairs" }, if b.ttl_wide { "v1 x v2 x v3 (215)" } else { "v1 x v2, v3 = v1 (35)" }, ttl_op_alphabet().len(), b.diff_len.min(2), if b.ttl_wide { " (3 on the sub-universe)" } else { "" }, b.sender_dist, ttl_shape_universe(b.ttl_wide).len(), if b.ttl_wide { 4 } else { 3 }, if b.ttl_wide { " and 3-version chains; faults and 2-step streams through every zone of it" } else { "" }),
+                "zone_origin_x_tree_shape": format!("part E: names a.z, b.a.z, c.z, e.c.z, d.e.c.z each holding nothing or A{{1}}{}: {} contents; origins of the old zone {:?}; replacement routes {:?}; new content: {}; per case: content after history and after replacement == model, diff returned with the right serials, diff(old) == new by the model's own diff application, IXFR served from the diff by the real sender is a valid transfer of new (reference) and takes the real receiver there", if ctx.quick() { "" } else { " (leaves b.a.z, d.e.c.z also A{1,2} or TXT)" }, ek_universe(!ctx.quick()).len(), E_ORIGINS, E_ROUTES.iter().map(|r| r.1).collect::<Vec<_>>(), if ctx.quick() { "every content of the universe" } else { "every content <= 3 names away plus the empty and the full content" }),
+                "writer_interleaved_with_transfer": format!("part I: sender at version 2 of a 4-version chain ({} chains), {} request kinds (axfr, axfr one RR per response, ixfr answered axfr-style, ixfr from diffs in one / many messages, Zone as provider{}); the writer commits version 3 (and 4) after k = 0..={} items of the response stream (k = 0: stream returned, not yet polled) and 0..={} extra runtime turns: one version, two versions at one point{}; oracle: the emitted stream is a valid transfer of one version that was current between request and end of stream (histogram I:<request>:<when>)", if ctx.quick() { 2 } else { 110 }, interleave_requests(ctx.quick()).len(), if ctx.quick() { "" } else { ", small message limits, udp" }, if ctx.quick() { 6 } else { 12 }, if ctx.quick() { 2 } else { 3 }, if ctx.quick() { "" } else { ", every pair of points (base chains)" }),
                 "tsig_sender": format!("SOA + {} TXT records of {} octets, RNAME extension 0 and 2..={} octets, 4 request kinds", FILLERS, FILL_TXT, b.tsig_extra_max),
             },
             "histogram": total.counters,
